@@ -21,6 +21,13 @@ def clause_map(gen_path):
     returns list of (line_no, fn_name, kind, clause_index, clause_text) for every line that
     belongs to a spliced requires/ensures clause, and fn body ranges."""
     lines = open(gen_path).read().split("\n")
+    # only the spliced contracts of the extracted /repo functions are obligations; the ensures
+    # of the ASSUMED stand-ins in specs.rs (before the marker) are not
+    start_at = 0
+    for n_, l_ in enumerate(lines):
+        if l_.startswith("// ======== /repo text (functions)"):
+            start_at = n_
+            break
     out = {}
     fn = None
     kind = None
@@ -30,7 +37,7 @@ def clause_map(gen_path):
     cur_clause_lines = []
     pending_label = None
     cur_label = None
-    i = 0
+    i = start_at
     fn_re = re.compile(r"^\s*(?:pub\s+)?(?:proof\s+)?fn\s+(\w+)")
     while i < len(lines):
         l = lines[i]
